@@ -262,8 +262,12 @@ func (w *world) monitor(rep *emit.Report, prop string, hid int, n *node) {
 			base := effective(b)
 			switch p := st.ev.packet.Packet.(type) {
 			case *pdkg.GossipPacket_Proposal:
-				if p.Proposal.GetLeader().GetAddress() != md.GetAddress() {
-					rep.Fail("C09-role-violation", "proposal accepted from a sender that is not the named leader", in())
+				// only the leader proposes: the sender is EXACTLY the named leader's address and the
+				// signature verifies under the key the proposal lists for the named leader
+				if p.Proposal.GetLeader().GetAddress() != md.GetAddress() || !verifiesUnder(p.Proposal.GetLeader().GetKey()) {
+					rep.Fail("C09-proposal-not-signed-by-named-leader-accepted",
+						fmt.Sprintf("proposal accepted although the named leader %s did not sign it (sender %q; the signature does not verify under the leader's key or the sender is not the leader's address)",
+							p.Proposal.GetLeader().GetAddress(), md.GetAddress()), in())
 				}
 			case *pdkg.GossipPacket_Execute:
 				if base.Leader.GetAddress() != md.GetAddress() {
